@@ -29,14 +29,15 @@ structure Scan where
   rest   : List Char      -- text after the digit run (the whole input when no conversion)
   deriving Repr, DecidableEq
 
+/-- one optional sign character -/
+def signSplit : List Char → Bool × List Char
+  | '-' :: r => (true, r)
+  | '+' :: r => (false, r)
+  | s => (false, s)
+
 /-- common front end of strtol/strtoul, base 10 -/
 def scan (s : List Char) : Scan :=
-  let s1 := s.dropWhile isSpace
-  let ns : Bool × List Char :=
-    match s1 with
-    | '-' :: r => (true, r)
-    | '+' :: r => (false, r)
-    | _ => (false, s1)
+  let ns := signSplit (s.dropWhile isSpace)
   let ds := ns.2.takeWhile isDigit
   if ds = [] then { neg := false, digits := [], rest := s }
   else { neg := ns.1, digits := ds, rest := ns.2.dropWhile isDigit }
